@@ -2,7 +2,7 @@
 # usage: try_seed_wt.sh <seed dir> <prop> [tier] — like try_seed.sh but on a scratch worktree of /repo's HEAD (leaves /repo untouched)
 D=$(readlink -f $1); P=$2; T=${3:-quick}
 WT=/tmp/wt/tryw-$$
-git -C /repo worktree add --detach $WT HEAD >/dev/null 2>&1 || exit 2
+git -C /repo worktree add --detach $WT ${BASE:-HEAD} >/dev/null 2>&1 || exit 2
 git -C $WT apply $D/patch.diff || echo "PATCH DOES NOT APPLY"
 cd /verif
 VERIF_REPO=$WT ./check $P $T | grep -v "^    via\|^KNOWN" | cut -c1-400 | tail -${LINES_OUT:-12}
